@@ -269,7 +269,8 @@ def manifest_file(draw, fid, depth, parent_vars, parent_rules, counter):
         binds = []
         used_in_paths = {pc[1] for tpl in outs + ins + imp + oo for pc in tpl if pc[0] == "var"}
         for _ in range(draw(st.integers(0, 2))):
-            bn = draw(st.sampled_from(VARNAMES + ["description", "extra"]))
+            # (also bindings that try to shadow the built-in $in / $out / $in_newline: the built-ins win)
+            bn = draw(st.sampled_from(VARNAMES + ["description", "extra", "in", "out", "in_newline"]))
             if bn in [b[0] for b in binds] or bn in used_in_paths:
                 # (a build's own bindings are not referenced from its own path list: the manual is
                 # silent, ninja expands them, llbuild does not -- domain choice, see DESIGN.md)
@@ -401,6 +402,8 @@ def reference(f, scope, out, info):
                         return b" ".join(shell_quote(p, safe) if escape else p for p in ins)
                     if n == "out":
                         return b" ".join(shell_quote(p, safe) if escape else p for p in outs)
+                    if n == "in_newline":
+                        return b"\n".join(shell_quote(p, safe) if escape else p for p in ins)
                     if n in binds:
                         return binds[n]
                     if n in rule["params"]:
